@@ -50,9 +50,11 @@ Lemma writer_sinks_are_buffers :
   forallb (fun p => String.eqb (snd p) "*bytes.Buffer") writer_sinks = true /\ writer_built_in = ["newWriter"].
 Proof. split; reflexivity. Qed.
 
-Lemma compile_path_current : compile_path =
-  ["internal/bundles"; "pkg/arrai"; "pkg/arrai/relmod"; "pkg/arrai/transform"; "pkg/env"; "pkg/grammar"; "pkg/importer";
-   "pkg/msg"; "pkg/parse"; "pkg/pbutil"; "pkg/printer"; "pkg/sysl"; "pkg/syslutil"; "pkg/utils"].
+(* the packages the table was computed over (pkg/parse and what it imports, transitively) include the ones the property
+   names; the exact list is generated information, not pinned: a further package without kill sites changes nothing *)
+Lemma compile_path_covers :
+  forallb (fun p => existsb (String.eqb p) compile_path)
+    ["pkg/parse"; "pkg/grammar"; "pkg/importer"; "pkg/syslutil"; "pkg/pbutil"; "pkg/env"; "pkg/arrai"; "pkg/printer"] = true.
 Proof. reflexivity. Qed.
 
 (* where and with what location the listener records: exactly the four events of Linter.event *)
